@@ -430,6 +430,11 @@ def c18_correspond(run, rng, tier):
                 continue
             rsessions.append(['new repl', 'stdin ' + ','.join(hexs(c) for c in chunks), 'eval ' + hexs('(repl ">>> " nil)')])
             rmeta.append((text, expected, cname, chunks))
+    # the closures themselves: every function of repl.lisp as the real interpreter binds it, against what the model binds
+    # (Generated/ReplExpanded.lean, which the theorem C18b.repl_session is about, is a dump of the latter)
+    closure_session = ['new repl', 'eval ' + hexs('\n'.join(f"(destructure-function (with-current-module '{n} 'repl))" for n in ['-pretty-print-syntax-error', 'pretty-print-error', 'repl', 'read-eval-print']))]
+    creal, cmodel = both([closure_session], timeout=300)
+    diffs += compare([closure_session], creal, cmodel)
     rreal, rmodel = both(rsessions, timeout=900)
     diffs += compare(rsessions, rreal, rmodel)
     n_proc = 0
@@ -1687,7 +1692,7 @@ def c15_correspond(run, rng, tier):
                     'real vs model vs a Python table oracle',
             'samples': progs[:2], 'disagreements': diffs, 'oracle_failures': failures, 'distribution': dist}
 
-spec('C15', correspond=c15_correspond, replay=generic_replay, modules=['C15'],
+spec('C15', correspond=c15_correspond, replay=generic_replay, modules=['C15', 'C15b'],
      search=lambda run, rng, d: c15_correspond(run, random.Random(rng.random()), 'quick')['oracle_failures'],
      trusted=['the evaluator model is tied to eval/mod.rs and globals/mod.rs by differential execution', 'HashMap as a finite map', 'the correspondence check'],
      assumptions=['define_module replaces an existing module of the same name (observation: loading the same source name twice drops the first load\'s definitions)'])
@@ -1894,6 +1899,7 @@ def c09_correspond(run, rng, tier):
             # address text may also be spelled out as character data, when the program prints a function and keeps the text
             # as a list: (cons %0 (cons %x (cons %5 …; everything from there on is not compared
             p = re.sub(r'0x[0-9a-f]+', '0x?', p)
+            p = re.sub(r'%0 %x(?: %[0-9a-f])+', '%0 %x %?', p)
             return re.sub(r'%0 \(cons %x.*', '%0 (cons %x …', p, flags=re.S)
         return [(k, mask(p)) for (k, p, _) in res], re.sub(r'0x[0-9a-f]+', '0x?', tr.get('out') or '')
     for x, r in zip(forms, real):
@@ -2290,6 +2296,11 @@ def c20_correspond(run, rng, tier):
             meta.append((p, mode))
         sessions.append(['new debugger', 'evalstop ' + hexs(p)])
         meta.append((p, 'direct'))
+    # the closures themselves: every function of debugger.lisp as the real interpreter binds it, against what the model binds
+    # (the constants of Generated/DebuggerExpanded.lean, which the theorems of C20b / C20c are about, are dumps of the latter)
+    dbg_names = ['lookup', 'add-parameters', 'highlight-list-elem', 'debug-list', 'debug-eval-internal', 'sequence-changed', 'debug-expand-list', 'debug-expand', 'keep-expanding', 'debug-eval']
+    sessions.append(['new debugger', 'eval ' + hexs('\n'.join(f"(destructure-function (with-current-module '{n} 'debugger))" for n in dbg_names))])
+    meta.append((None, 'closures'))
     real, model = both(sessions, timeout=600)
     # the stream of debugger messages is part of the comparison with the model; the property itself is about value/signal/output
     diffs = compare(sessions, real, model)
@@ -2298,6 +2309,8 @@ def c20_correspond(run, rng, tier):
     dist = {}
     by_prog = {}
     for (p, mode), r in zip(meta, real):
+        if p is None:
+            continue
         res, tr = parse_eval(r[-1] if r else '')
         last = res[-1] if res else None
         out = (last[0], re.sub(r'0x[0-9a-f]+', '0x?', last[1]) if last else None, re.sub(r'0x[0-9a-f]+', '0x?', (tr or {}).get('out') or '')) if last else None
@@ -2331,7 +2344,7 @@ def c20_correspond(run, rng, tier):
                     'and every run, including the stream of debugger messages, compared with the model evaluator interpreting the real debugger.lisp',
             'samples': progs[:2] + progs[30:32], 'disagreements': diffs, 'oracle_failures': failures, 'distribution': dist, 'findings_seen': findings_seen}
 
-spec('C20', correspond=c20_correspond, replay=generic_replay, modules=['C20', 'C20b', 'C20c'],
+spec('C20', correspond=c20_correspond, replay=generic_replay, modules=['C20', 'C20b', 'C20c', 'C20d'],
      search=lambda run, rng, d: c20_correspond(run, random.Random(rng.random()), 'quick')['oracle_failures'],
      trusted=['the evaluator model is tied to eval/mod.rs by differential execution', 'debugger.lisp is interpreted by the model evaluator (not re-modelled)', 'the correspondence check (hook H3 answers `receive`)'],
      assumptions=['partial: the agreement of debug-eval with eval is established by differential execution (real and model), the theorems cover the natives the stepping evaluator is built from and the detached case',
